@@ -196,16 +196,31 @@ type Obj struct {
 }
 
 type Heap struct {
-	objs  map[int]*Obj
-	owner *int
+	frozen map[int]*Obj // immutable layer shared by every state (the heap after package initialisation)
+	objs   map[int]*Obj // objects created or modified since
+	owner  *int
 }
 
 var nextObj = 1
 
 func NewHeap() *Heap { return &Heap{objs: map[int]*Obj{}, owner: new(int)} }
 
+// Freeze turns the current contents into the shared immutable layer.
+func (h *Heap) Freeze() {
+	f := make(map[int]*Obj, len(h.frozen)+len(h.objs))
+	for k, v := range h.frozen {
+		f[k] = v
+	}
+	for k, v := range h.objs {
+		f[k] = v
+	}
+	h.frozen = f
+	h.objs = map[int]*Obj{}
+	h.owner = new(int)
+}
+
 func (h *Heap) Fork() *Heap {
-	n := &Heap{objs: make(map[int]*Obj, len(h.objs)+8), owner: new(int)}
+	n := &Heap{frozen: h.frozen, objs: make(map[int]*Obj, len(h.objs)+8), owner: new(int)}
 	for k, v := range h.objs {
 		n.objs[k] = v
 	}
@@ -221,18 +236,25 @@ func (h *Heap) Alloc(v Value) int {
 	return id
 }
 
+func (h *Heap) lookup(id int) *Obj {
+	if o, ok := h.objs[id]; ok {
+		return o
+	}
+	return h.frozen[id]
+}
+
 func (h *Heap) Get(id int) Value {
-	o, ok := h.objs[id]
-	if !ok {
+	o := h.lookup(id)
+	if o == nil {
 		panic(fmt.Sprintf("heap: no object %d", id))
 	}
 	return o.V
 }
 
-func (h *Heap) Has(id int) bool { _, ok := h.objs[id]; return ok }
+func (h *Heap) Has(id int) bool { return h.lookup(id) != nil }
 
 func (h *Heap) Set(id int, v Value) {
-	o := h.objs[id]
+	o := h.lookup(id)
 	if o == nil {
 		panic(fmt.Sprintf("heap: no object %d", id))
 	}
@@ -571,8 +593,8 @@ func (m *merger) heaps() (*Heap, bool) {
 	sort.Ints(ids)
 	for _, id := range ids {
 		ob := m.hb.objs[id]
-		oa, ok := m.ha.objs[id]
-		if !ok {
+		oa := m.ha.lookup(id)
+		if oa == nil {
 			continue
 		}
 		if oa == ob || oa.V == ob.V {
@@ -603,6 +625,23 @@ func (m *merger) heaps() (*Heap, bool) {
 			continue
 		}
 		out.objs[id] = &Obj{V: m.renameVal(m.hb.objs[id].V), owner: out.owner}
+	}
+	// objects modified only on the a side relative to the frozen layer, while b still has the frozen value
+	if m.ha.frozen != nil {
+		for id, oa := range m.ha.objs {
+			if _, inB := m.hb.objs[id]; inB {
+				continue
+			}
+			fo, ok := m.hb.frozen[id]
+			if !ok || fo == oa || fo.V == oa.V {
+				continue
+			}
+			v, ok := m.val(oa.V, fo.V)
+			if !ok {
+				return nil, false
+			}
+			out.Set(id, v)
+		}
 	}
 	return out, true
 }
